@@ -105,3 +105,20 @@ func H_C20_document_api() {
 	}
 	nd.Reach("end")
 }
+
+//verif:harness props=C03,C06,C12 tier=quick expect=violation bounds="vacuity twin of the operation step harnesses: state construction, one update and the audit are reached and a false assertion after them is reported"
+func H_ops_vacuity_twin() {
+	e := openEnv()
+	a := stdState(e, 1, idxNoneX)
+	nd.Assert("twin.update-ok", e.db.Update(query.NewQuery("c"), map[string]interface{}{"x": normFloat("v")}) == nil)
+	a.coll("c").docs[0].fields["x"] = nil // deliberately wrong expectation: the audit must notice
+	audit("twin", e.ms, a)
+}
+
+//verif:harness props=C15 tier=quick expect=violation bounds="vacuity twin of the adapter harnesses: a false expectation about the committed content read back through the bbolt adapter is reported"
+func H_C15_vacuity_twin() {
+	st := openAdapter(0)
+	db, _ := OpenWithStore(st)
+	nd.Assert("twin.create", db.CreateCollection("c") == nil)
+	nd.Assert("twin.wrong-count", len(dumpStore(st)) == 0)
+}
